@@ -41,10 +41,33 @@ def plan(tier):
 # implementation-agnostic back-up of the E1 walks: seeded samples of the whole
 # simulator against expm(Q T) of the specification's own generator (built by the
 # reference interpreter on the reachable state space).
+def big_star_cfg(rng):
+    """A candidate list of ~60 pairs with two very heavy members: the law of the FIRST event is
+    rate/total exactly, whatever the size of the network - and a selection routine whose behaviour
+    depends on how long its rejection loop has been running shows up here (max/mean ~ 50)."""
+    n = rng.randint(55, 70)
+    nodes = list(range(n + 1))
+    edges = []
+    for i in range(1, n + 1):
+        w = 1.0
+        if i == 3:
+            w = 4000.0
+        elif i == 7:
+            w = 1500.0
+        edges.append([0, i, {"w": w, "w2": 1.0}])
+    rng.shuffle(edges)
+    spec = {"directed": False, "family": "star", "label": "int", "nodes": nodes,
+            "nattr": [{"nw": 1.0, "nw2": 1.0} for _ in nodes], "edges": edges}
+    return {"sim": "Gillespie_simple_contagion", "graph": spec, "statuses": ["S", "I", "R"],
+            "spont": [["I", "R", 1.0, "plain", None]], "induced": [["I", "S", "I", 0.002, "label", "w"]],
+            "IC": ["I"] + ["S"] * n, "ret": ["S", "I", "R"], "tmin": 0, "tmax": 0.6, "ic_type": "dict", "template": "big_star",
+            "T": [], "first_event": True, "prime": False}
+
+
 def law_cfgs(seed, tier):
     import random
     from eonsim import framework
-    out = []
+    out = [big_star_cfg(random.Random(framework.derive_int(seed, PROPERTY, "bigstar", 0)))]
     j = 0
     k = 0
     while len(out) < LAW_CFGS[tier] and k < 2000:
@@ -58,6 +81,21 @@ def law_cfgs(seed, tier):
         case["tmin"] = 0
         case["tmax"] = 3.0
         case["T"] = [0.5, 2.0]
+        if len(out) % 3 == 0:
+            # very heterogeneous weights inside one candidate list (max/mean >> 1): long rejection runs
+            from eonsim import cases as _cases
+            for e in case["graph"]["edges"]:
+                e[2]["w"] = _cases.draw_weight(rng, "wide")
+            for a in case["graph"]["nattr"]:
+                a["nw"] = _cases.draw_weight(rng, "wide")
+            for x in case["spont"]:
+                if x[3] == "plain" and rng.random() < 0.7:
+                    x[3], x[4] = "label", "nw"
+                x[2] = min(x[2], 0.01) if x[3] == "label" and x[4] == "nw" else x[2]
+            for x in case["induced"]:
+                if x[4] == "plain" and rng.random() < 0.7:
+                    x[4], x[5] = "label", "w"
+                x[3] = min(x[3], 0.01) if x[4] == "label" and x[5] == "w" else x[3]
         # rates of 10 make the chain mix before T; keep them moderate
         for x in case["spont"]:
             x[2] = min(x[2], 1.3)
@@ -102,6 +140,13 @@ def law_sample(case, n, seed):
         for j, tt in enumerate(case["T"]):
             d = inv.get_statuses(time=tt)
             out.append((j, repr(tuple(d[x] for x in labels))))
+        if case.get("first_event"):
+            best = None
+            for x in labels:
+                ts, ss = inv.node_history(x)
+                if len(ts) > 1 and (best is None or ts[1] < best[0]):
+                    best = (ts[1], x, ss[1])
+            out.append(("first", repr((best[1], best[2])) if best else "none"))
         return out
     import io
     import sys
@@ -115,6 +160,18 @@ def law_sample(case, n, seed):
 
 def law_expected(case):
     ad = contagion.SimpleAdapter(dict(case, prefix=[]))
+    if case.get("first_event"):
+        import math
+        ev = ad.ref.enabled(ad.init_state)
+        tot = sum(ev.values())
+        pnone = math.exp(-tot * (case["tmax"] - case["tmin"]))
+        exp = {"none": pnone}
+        for k, r in ev.items():
+            node = ad.labels[k[1]] if k[0] == "sp" else ad.labels[k[2]]
+            new = k[3] if k[0] == "sp" else k[4]
+            key = repr((node, new))
+            exp[key] = exp.get(key, 0.0) + (1 - pnone) * r / tot
+        return {"first": exp}
     return {j: {repr(s): p for s, p in lawtest.generic_dist_at(ad.ref, ad.init_state, tt).items()}
             for j, tt in enumerate(case["T"])}
 
